@@ -698,7 +698,7 @@ pub fn run(args: &Args) -> i32 {
         println!("VIOLATION property=C10 replay={path}");
         return EXIT_VIOLATION;
     }
-    let scripts = args.tier.pick(40_000u64, 2_000_000);
+    let scripts = args.tier.pick(400_000u64, 12_000_000);
     let mut ev = Evidence::new();
     for p in parallel(args.jobs, scripts, Evidence::new, |n, ev| run_script(seed, n, ev)) {
         ev.merge(p);
@@ -714,7 +714,7 @@ pub fn run(args: &Args) -> i32 {
         ],
         exhaustive: None,
         floors: vec![
-            ("requests_tracked".into(), args.tier.pick(150_000, 5_000_000)),
+            ("requests_tracked".into(), args.tier.pick(1_500_000, 40_000_000)),
             ("distinct_reference_state_x_event_pairs".into(), 0),
         ],
         min_classes: 18,
